@@ -62,6 +62,15 @@ class C13(DiffProperty):
                 "and errno kinds are not modelled (refusals compared as a class); mpt++ wrappers io::queue are not modelled")
     trusted = ["harness/c13_queue.c reads the ring back independently ((off+i) mod max) after every operation",
                "realloc is assumed to keep the common prefix and to succeed"]
+    level_text = ("proof: Coq theorems C13_step_refines_deque / C13_history_refines_deque / C13_refused_leaves_content / "
+                  "C13_memrev_rotates state, for every capacity, offset, fill and operation history (no bound), that the transcribed "
+                  "ring-buffer mechanism yields exactly the outputs and bytes of a plain byte deque, never accesses outside its storage "
+                  "and leaves refused operations without effect; the model is tied to the code on every run by differential execution "
+                  "(exhaustive over all small start states x single operations, plus random histories) under ASan/UBSan")
+    level_note = ("trusted: Coq kernel; hand transcription of mptcore/queue/*.c (validated by the correspondence run, not verified); "
+                  "extraction (ExtrOcamlBasic) and OCaml driver; harness; realloc success and errno kinds not modelled; "
+                  "mpt++ io::queue wrappers not modelled. Theorems are closed under the global context (no axioms).")
+    technique = "Coq refinement proof (ring buffer -> byte deque) + differential correspondence check"
     assumptions = ["realloc succeeds", "element comparison callback of mpt_queue_find is pure"]
 
     def split(self, case):
